@@ -271,6 +271,12 @@ clientReplyContext::processExpired()
         return;
     }
 
+    // a revalidation is a forwarded request, too: deny loops like processMiss()
+    if (http->request->flags.loopDetected) {
+        processMiss();
+        return;
+    }
+
     http->updateLoggingTags(LOG_TCP_REFRESH);
     http->request->flags.refresh = true;
 #if STORE_CLIENT_LIST_DEBUG
